@@ -156,9 +156,11 @@ def check_case(ctx, case):
                     si = case['sep']
                     kw = {}
                     if si == 'int':
-                        kw['separator_insertion'] = 1        # ensemble names are one character long
+                        kw['separator_insertion'] = case.get('sep_k', 1)
                     elif si == 'str':
                         kw['separator_insertion'] = 'r'
+                    elif si == 'none':
+                        kw['separator_insertion'] = None
                     if case['via'] == 'string':
                         s = dio.create_dobs_string(obs, 'nm')
                         got = dio.import_dobs_string(s.encode(), **kw)
@@ -171,6 +173,38 @@ def check_case(ctx, case):
             except Exception as e:
                 probs.append(('violation', 'roundtrip-exception:' + fmt, '%s: %s' % (type(e).__name__, str(e)[:200])))
                 return probs
+            # the documented treatment of the replica separator: the file stores the chain name without '|';
+            # the reader re-inserts it according to the mode
+            if fmt == 'dobs':
+                def expected_name(n):
+                    stored = n.replace('|', '')
+                    if si == 'true':
+                        return n
+                    if si == 'int':
+                        k = kw['separator_insertion']
+                        return stored[:k] + '|' + stored[k:]
+                    if si == 'str':
+                        return stored.replace('r', '|r')
+                    return stored
+                chains = sorted(set(n for o in obs for n in o.names if n not in o.covobs))
+                ren = {n: expected_name(n) for n in chains}
+                if any(ren[n] != n for n in chains):
+                    for i, (a, b) in enumerate(zip(obs, got)):
+                        # a chain on which every written number is 0 is indistinguishable from "not measured"
+                        an = [n for n in a.names if n not in a.covobs and np.any(np.asarray(a.deltas[n]) + (a.r_values[n] - a.value) != 0)]
+                        bn = [n for n in b.names if n not in b.covobs]
+                        if sorted(ren[n] for n in an) != sorted(bn):
+                            probs.append(('violation', 'separator-treatment', 'mode %r: chains %r, documented %r' % (kw.get('separator_insertion', True), bn, sorted(ren[n] for n in an))))
+                            break
+                        for n in an:
+                            sa = np.asarray(a.deltas[n]) + a.r_values[n]
+                            m = ren[n]
+                            keep = [k_ for k_, v in enumerate(np.asarray(a.deltas[n]) + (a.r_values[n] - a.value)) if v != 0]
+                            sb = np.asarray(b.deltas[m]) + b.r_values[m]
+                            if list(np.asarray(a.idl[n])[keep]) != list(b.idl[m]) or np.max(np.abs(sa[keep] - sb)) > 1e-10 * max(1.0, np.max(np.abs(sa))):
+                                probs.append(('violation', 'separator-treatment-data', 'chain %s -> %s' % (n, m)))
+                                break
+                    return probs
             diffs, known = compare(obs, got, fmt, drops_allowed=(fmt == 'dobs'))
             if diffs:
                 probs.append(('violation', 'roundtrip:' + fmt, diffs[:4]))
@@ -220,10 +254,10 @@ def check_case(ctx, case):
 def gen_case(ctx):
     rng = ctx.rng
     fmt = rng.choice(['dobs', 'dobs', 'dobs', 'pobs'])
-    ens = rng.sample(['A', 'B'], rng.choice([1, 1, 2])) if fmt == 'dobs' else ['A']
+    ens = rng.sample(rng.choice([['A', 'B'], ['A', 'B'], ['ens', 'Ab'], ['Bq', 'A']]), rng.choice([1, 1, 2])) if fmt == 'dobs' else ['A']
     case = {'fmt': fmt, 'seed': rng.getrandbits(28), 'ens': sorted(ens), 'nrep': {e: rng.choice([1, 2, 3]) for e in ens}, 'n': rng.randint(1, 4),
             'subsets': fmt == 'dobs' and rng.random() < 0.6, 'data': rng.choice(['real', 'real', 'count']), 'gz': rng.random() < 0.5,
-            'via': rng.choice(['string', 'file']), 'sep': rng.choice(['true', 'true', 'int', 'str']), 'analyse': rng.random() < 0.3}
+            'via': rng.choice(['string', 'file']), 'sep': rng.choice(['true', 'true', 'int', 'str', 'none']), 'sep_k': rng.choice([1, 1, 2, 3]), 'analyse': rng.random() < 0.3}
     if fmt == 'dobs':
         case['cov'] = rng.choice([None, None, 1, 2, 3])
         case['cancel'] = rng.random() < 0.5
